@@ -125,3 +125,69 @@ def exp_on_negative_values(a, integer_bits=5):
     if a == 0:
         return I32_MAX
     return result
+
+
+# ---- TFLite reference_ops::Softmax for 8-bit inputs (gemmlowp fixed point), exact ints
+def _sat_rounding_mul_by_pot(x, exponent):
+    """gemmlowp SaturatingRoundingMultiplyByPOT"""
+    if exponent >= 0:
+        return sat_left_shift(x, exponent, I32_MIN, I32_MAX)
+    return rdbp(x, -exponent)
+
+
+def _rounding_half_sum(a, b):
+    s = a + b
+    sign = 1 if s >= 0 else -1
+    return trunc_div(s + sign, 2)
+
+
+def one_over_one_plus_x_for_x_in_0_1(a):
+    """a: raw Q0.31 in [0, 1) -> raw Q0.31 of 1 / (1 + a)"""
+    half_den = _rounding_half_sum(a, I32_MAX)                     # F0
+    c48_17, cneg32_17 = 1515870810, -1010580540                    # F2
+    x = c48_17 + srdhm32(half_den, cneg32_17)                      # F2 (F0 * F2)
+    for _ in range(3):
+        hdx = srdhm32(half_den, x)                                 # F2
+        one_minus = (1 << 29) - hdx                                # F2::One() = 2^(31-2)
+        x = x + _sat_rounding_mul_by_pot(srdhm32(x, one_minus), 2)  # F4 -> F2
+    return _sat_rounding_mul_by_pot(x, 2 - 1)                      # ExactMulByPot<-1> then Rescale<0>: raw << 1 (saturating)
+
+
+def softmax_params(beta, input_scale):
+    """-> (input_multiplier, input_left_shift, diff_min) as PreprocessSoftmaxScaling / CalculateInputRadius compute them"""
+    real = min(float(beta) * float(input_scale) * (1 << (31 - 5)), (1 << 31) - 1.0)
+    q, e = quantize_multiplier(real)
+    assert e >= 0
+    max_in = 1.0 * ((1 << 5) - 1) * (1 << (31 - 5)) / (1 << e)
+    return q, e, -int(math.floor(max_in))
+
+
+def softmax_row_8bit(row, mult, left_shift, diff_min, out_min, out_max):
+    """row: list of ints (input codes). Returns output codes (TFLite reference_ops::Softmax, 8-bit output)."""
+    mx = max(row)
+    sum_of_exps = 0
+    exps = []
+    for v in row:
+        d = v - mx
+        if d >= diff_min:
+            resc = srdhm32(d * (1 << left_shift), mult)            # MultiplyByQuantizedMultiplierGreaterThanOne
+            e = exp_on_negative_values(resc, 5)
+            exps.append(e)
+            sum_of_exps += rdbp(e, 12)                              # Rescale<12>(F0)
+        else:
+            exps.append(None)
+    headroom_plus_one = 32 - sum_of_exps.bit_length() if sum_of_exps > 0 else 32
+    num_bits_over_unit = 12 - headroom_plus_one
+    if num_bits_over_unit + 31 - 8 > 31:
+        # the reference kernel would call RoundingDivideByPOT with an exponent above 31 (undefined there): rows of >= 512 near-maximal entries
+        raise OverflowError("softmax row sum beyond the defined range of the reference kernel")
+    shifted_sum_minus_one = ((sum_of_exps << headroom_plus_one) & 0xFFFFFFFF) - (1 << 31)
+    shifted_scale = one_over_one_plus_x_for_x_in_0_1(shifted_sum_minus_one)
+    out = []
+    for e in exps:
+        if e is None:
+            out.append(out_min)
+        else:
+            unsat = rdbp(srdhm32(shifted_scale, e), num_bits_over_unit + 31 - 8)
+            out.append(min(out_max, max(out_min, unsat + out_min)))
+    return out
